@@ -75,6 +75,13 @@ var verifPathShapes = []string{
 	"ex.a / (ex.b / ex.c | ex.a) / ex.b", "((ex.a))", "ex.a / ((ex.b | ex.c) / ex.a | ex.b)",
 	"ex.a | (ex.b | ex.c)", "(ex.a | ex.b) | ex.c", "(ex.a / ex.b | ex.c) | ex.b", "ex.a / (ex.b / ex.c)", "(ex.a / ex.b) / ex.c", "ex.c | (ex.a / (ex.b | ex.c^))",
 	"ex.a / ex.b / (ex.c | ex.a) / ex.b", "ex.a / ex.b / ex.c / (ex.a^ | ex.b | ex.c^) / ex.a", "ex.a / (ex.b | ex.c) / (ex.a | ex.b) / ex.c",
+	// long paths: many steps before an alternative (the generated clause grows past the sizes at which
+	// slices get spare capacity), wide alternatives, an alternative at every other step
+	"ex.a / ex.b / ex.c / ex.a / ex.b / ex.c / ex.a / ex.b / (ex.c^ | ex.a^)",
+	"ex.a / ex.b / ex.c / ex.a / ex.b / ex.c / ex.a / ex.b / ex.c / ex.a / ex.b / (ex.c | ex.a^ | ex.b^) / ex.c",
+	"ex.a^ / ex.b^ / ex.c^ / ex.a^ / ex.b^ / ex.c^ / ex.a^ / ex.b^ / ex.c^ / ex.a^ / ex.b^ / ex.c^ / ex.a^ / ex.b^ / ex.c^ / ex.a^ / (ex.b^ | ex.c^)",
+	"ex.a | ex.b | ex.c | ex.a^ | ex.b^ | ex.c^ | (ex.a / ex.b) | (ex.b / ex.c) | (ex.c / ex.a)",
+	"(ex.a | ex.b^) / ex.c / (ex.a^ | ex.b) / ex.c / (ex.a | ex.c^) / ex.b",
 }
 
 func lhsIdent(line string) (string, bool) {
